@@ -13,9 +13,11 @@ RULE = ("CHAIN: chains of `bumpver test`, each step starting from the version th
         "invocations (committing or --no-commit) in which each release is only recorded as a VCS tag (FakeRepo) and the next job "
         "starts from the pristine checkout again. TESTCMD adds BUILD parts "
         "inside grammar patterns. distinct_nontrivial = distinct (pattern, start, step) triples of short chains + distinct "
-        "expansion / maximum events.")
+        "expansion / maximum events."
+        " UNQUOTED: a TOML config whose current_version is a bare number (1.10, 2026.1100, 25.10): every command refuses, or behaves as if it had read the text as written.")
 ASSUMPTIONS = ["lexid successor re-implemented from the lexid README table", "ids of 8+ digits only via chains"]
-COMPONENTS = {"bumpver cli test, v2version, lexid": "real", "clock": "simulated"}
+COMPONENTS = {"bumpver cli test, v2version, lexid": "real", "clock": "simulated",
+              "config (UNQUOTED)": "real loader on a TOML current_version written as a bare number"}
 CAMPAIGNS = [Chain(), ReleaseJobs(), TestCmd("C17", quick=5000, thorough=100000, sv_rate=0.05),
              Unquoted("C17", quick=300, thorough=6000)]
 
